@@ -64,13 +64,16 @@ def showCbs (cbs : List (String × Int)) : String :=
   let sorted := cbs.mergeSort (fun a b => a.1 ≤ b.1)
   " | cb " ++ " ".intercalate (sorted.map fun (n, v) => s!"{n}={v}")
 
-/-- outputs of the listeners for one transaction's firing table -/
+/-- what one listener receives from a transaction with firing table `tbl` -/
+def lisOut (st : St) (tbl : Table) (l : Lis) : Option (String × Int) :=
+  if !l.active then none else
+  let f := fire tbl l.target
+  let o := if l.isCell && l.regTxn == st.sp.txn then (f.orElse fun _ => st.sp.val l.target) else f
+  o.map fun v => (l.name, v)
+
+/-- outputs of all listeners for one transaction's firing table -/
 def listenerOutputs (st : St) (tbl : Table) : List (String × Int) :=
-  st.lis.toList.filterMap fun l =>
-    if !l.active then none else
-    let f := fire tbl l.target
-    let o := if l.isCell && l.regTxn == st.sp.txn then (f.orElse fun _ => st.sp.val l.target) else f
-    o.map fun v => (l.name, v)
+  st.lis.toList.filterMap (lisOut st tbl)
 
 /-- one transaction with the given injected events; returns callbacks and the spawned events -/
 def runOne (st : St) (ev : Events) (posts : List (String × Nat)) : St × List (String × Int) × List (Nat × Int) :=
@@ -115,6 +118,46 @@ def cells (st : St) (ns : List String) : Option (List Nat) := ns.mapM st.cell
 def streams (st : St) (ns : List String) : Option (List Nat) := ns.mapM st.stream
 
 def idleObs : String := "idle cn=0 pp=0 po=0 ac=0 firing=0"
+
+/-- `StreamLoop::loop_`: looping twice panics -/
+def sloopCloseStmt (st : St) (l s : String) : St × String :=
+  match st.stream s, st.find l with
+  | some s, some (.ent i .sl) =>
+    if (st.sp.loopTo.get i).isSome then ({ st with dead := true }, "PANIC looped-twice")
+    else ({ st with sp := { st.sp with loopTo := st.sp.loopTo.set i (some s) } }, "ok")
+  | _, _ => (st, "skip")
+
+/-- `CellLoop::loop_` -/
+def cloopCloseStmt (st : St) (l c : String) : St × String :=
+  match st.cell c, st.find l with
+  | some c, some (.ent i .cl) =>
+    if (st.sp.loopTo.get i).isSome then ({ st with dead := true }, "PANIC looped-twice")
+    else ({ st with sp := { st.sp with loopTo := st.sp.loopTo.set i (some c) } }, "ok")
+  | _, _ => (st, "skip")
+
+/-- `Cell::sample`: the value at the start of the current transaction; a CellLoop that is not
+    looped yet (or anything computed from it) panics -/
+def sampleStmt (st : St) (c : String) : St × String :=
+  match st.cell c with
+  | some c => (match st.sp.val c with
+      | some v => (st, s!"v={v}")
+      | none => ({ st with dead := true }, "PANIC sample-before-loop"))
+  | none => (st, "skip")
+
+/-- `Lazy::run`: the value captured when the lazy was taken -/
+def forceStmt (st : St) (z : String) : St × String :=
+  match st.find z with
+  | some (.lazy snap cell) =>
+    (match snap.orElse fun _ => cell.bind st.sp.val with
+     | some v => (st, s!"v={v} runs=ok")
+     | none => ({ st with dead := true }, "PANIC sample-before-loop"))
+  | _ => (st, "skip")
+
+/-- `Listener::unlisten`: from now on the listener gets nothing, also for a transaction still open -/
+def unlistenStmt (st : St) (l : String) : St × String :=
+  match st.find l with
+  | some (.listener id) => ({ st with lis := st.lis.modify id fun x => { x with active := false } }, "ok")
+  | _ => (st, "skip")
 
 /-- one statement (not `begin`/`end`) -/
 def stmt (st : St) (ws : List String) : St × String :=
@@ -176,18 +219,8 @@ def stmt (st : St) (ws : List String) : St × String :=
       pure (.switchc sel cs)) .c
   | ["sloop", x] => defStmt st x (some .sloop) .sl
   | ["cloop", x] => defStmt st x (some .cloop) .cl
-  | ["sloopclose", l, s] =>
-    match st.stream s, st.find l with
-    | some s, some (.ent i .sl) =>
-      if (st.sp.loopTo.get i).isSome then ({ st with dead := true }, "PANIC looped-twice")
-      else ({ st with sp := { st.sp with loopTo := st.sp.loopTo.set i (some s) } }, "ok")
-    | _, _ => (st, "skip")
-  | ["cloopclose", l, c] =>
-    match st.cell c, st.find l with
-    | some c, some (.ent i .cl) =>
-      if (st.sp.loopTo.get i).isSome then ({ st with dead := true }, "PANIC looped-twice")
-      else ({ st with sp := { st.sp with loopTo := st.sp.loopTo.set i (some c) } }, "ok")
-    | _, _ => (st, "skip")
+  | ["sloopclose", l, s] => sloopCloseStmt st l s
+  | ["cloopclose", l, c] => cloopCloseStmt st l c
   | ["router", r, s, sel] =>
     if !st.fresh r then (st, "skip") else
     match st.stream s, num sel with
@@ -253,23 +286,9 @@ def stmt (st : St) (ws : List String) : St × String :=
       | some (.ent i k) => (st.bind l (.ent i k), "ok")
       | _ => (st, "skip")
     else (st, "bad-op")
-  | ["unlisten", l] =>
-    match st.find l with
-    | some (.listener id) => ({ st with lis := st.lis.modify id fun x => { x with active := false } }, "ok")
-    | _ => (st, "skip")
-  | ["sample", c] =>
-    match st.cell c with
-    | some c => (match st.sp.val c with
-        | some v => (st, s!"v={v}")
-        | none => ({ st with dead := true }, "PANIC sample-before-loop"))
-    | none => (st, "skip")
-  | ["force", z] =>
-    match st.find z with
-    | some (.lazy snap cell) =>
-      (match snap.orElse fun _ => cell.bind st.sp.val with
-       | some v => (st, s!"v={v} runs=ok")
-       | none => ({ st with dead := true }, "PANIC sample-before-loop"))
-    | _ => (st, "skip")
+  | ["unlisten", l] => unlistenStmt st l
+  | ["sample", c] => sampleStmt st c
+  | ["force", z] => forceStmt st z
   | ["topen", t] =>
     if !st.fresh t then (st, "skip") else
     (({ st with depth := st.depth + 1, txOpen := (t, true) :: st.txOpen }).bind t (.txn true), "ok")
@@ -302,6 +321,7 @@ def stmt (st : St) (ws : List String) : St × String :=
     ({ st with lis := st.lis.map fun l => if l.dying then { l with active := false } else l }, "ok")
   | ["obs"] => (st, if st.depth > 0 then s!"open {st.depth}" else idleObs)
   | ["nodes"] => (st, "nodes=?")
+  | ["memcheck"] => (st, "mem=ok")
   | ["leakcheck"] =>
     ({ st with names := [], lis := st.lis.map fun l => { l with active := false } }, "leak=0")
   | _ => (st, "bad-op")
